@@ -77,6 +77,45 @@ func buildEvidence(cfg *config, results []*jobResult, extra map[string]interface
 		}
 		cov["distinct_interleaving_points"] = map[string]interface{}{"measure": "distinct (preempted yield site, yield site at which the resumed task had stopped) pairs, hashed into 65536 buckets, union over all workers", "value": n}
 	}
+	// code reach: which yield sites (statements of apd) did the runs execute?
+	var hits []byte
+	var names []string
+	for _, jr := range results {
+		if len(hits) < len(jr.siteHits) {
+			hits = append(hits, make([]byte, len(jr.siteHits)-len(hits))...)
+		}
+		for i := range jr.siteHits {
+			hits[i] |= jr.siteHits[i]
+		}
+		if len(jr.siteNames) > len(names) {
+			names = jr.siteNames
+		}
+	}
+	if len(hits) > 0 {
+		n := 0
+		perFunc := map[string][2]int{}
+		for i, h := range hits {
+			fn := "?"
+			if i < len(names) {
+				fn = names[i]
+			}
+			c := perFunc[fn]
+			c[1]++
+			if h != 0 {
+				n++
+				c[0]++
+			}
+			perFunc[fn] = c
+		}
+		var never []string
+		for fn, c := range perFunc {
+			if c[0] == 0 {
+				never = append(never, fn)
+			}
+		}
+		sort.Strings(never)
+		cov["code_reach"] = map[string]interface{}{"measure": "yield sites (statements of the apd package) executed at least once by this check", "executed": n, "of": len(hits), "functions_never_entered": never}
+	}
 	cov["evaluations"] = evals
 	cov["distinct_nontrivial"] = len(distinct)
 	cov["rule"] = ruleText[cfg.prop]
